@@ -1,7 +1,10 @@
 """C19 -- TL1 parser is total with in-range error positions (internal/tlast: tllexer.go, tlparser_code.go,
-tlparser_typeref.go, tlparser_error.go)."""
+tlparser_typeref.go, tlparser_error.go).  Generators, harness runner and oracle are shared with C20: lib/lex_lib.py."""
 import lex_lib
+
+PROPS = "Props/C19"
+FAMILY = "lex"
 
 
 def run(ctx):
-    lex_lib.run_check(ctx, 1, "Props/C19")
+    lex_lib.run_check(ctx, 1, PROPS, FAMILY)
